@@ -1,6 +1,7 @@
 /- Property C08: the property theorems (and nothing else). -/
 import Frugal.Proofs.DescMapLemmas
 import Frugal.Props.Inst.F_facts_lockDiscipline
+import Frugal.Props.Inst.F_facts_descriptorsReadOnly
 namespace Frugal.C08
 open Frugal
 /-- under every interleaving of any number of goroutines, a completed first-use call returns the
@@ -19,4 +20,10 @@ theorem no_deadlock (descOf key : Nat → Nat) (sched : List Nat) (t : Nat)
   progress (crun_inv sched (cinit key) (cinit_inv descOf key)) t hn
 /-- the code follows the protocol the model describes (regenerated structural facts) -/
 theorem lock_discipline : Generated.facts.lockDiscipline = true := Instances.facts_lockDiscipline
+/-- … and what the concurrent calls share after that — the published descriptors — is never written on
+    the encode / size / decode paths (regenerated fact: no assignment to, increment of, or address taken
+    of a field reached from a `*tType` / `*structDesc` / `*tField` in those functions), so calls on
+    unshared values and buffers run on read-only shared state plus pooled scratch -/
+theorem descriptors_read_only_on_hot_paths : Generated.facts.descriptorsReadOnly = true :=
+  Instances.facts_descriptorsReadOnly
 end Frugal.C08
